@@ -214,6 +214,24 @@ func Check(d *fw.Driver, res *fw.Result, e *scen.Env, subs []*Sub, sig string) e
 		res.Traces++
 		res.Events += len(mes)
 		if mm["accepted"] != true {
+			// a subscription whose call failed (its response was lost with the connection or dropped because
+			// the call had already been failed by the sweep) never had a sink and no channel was handed to a
+			// caller: frames still arriving for its channel id find nothing.  C07/C08 speak of channels
+			// handed to callers; the pipeline model starts at the sink registration.
+			if tok, ok := tokOfCh[ch]; ok {
+				if sb := subOfTok[tok]; sb != nil && sb.Returned && sb.Err != nil {
+					hasReg := false
+					for _, me := range mes {
+						if me["e"] == "sinkReg" {
+							hasReg = true
+						}
+					}
+					if !hasReg {
+						res.Count("channel-never-handed-out")
+						continue
+					}
+				}
+			}
 			idx := 0
 			if n, ok := mm["refusedAt"].(json.Number); ok {
 				v, _ := n.Int64()
